@@ -16,9 +16,17 @@ import gen, pyref, tracecmp, oracles   # noqa: E402
 
 BUILD = ROOT + '/build'
 COQ = ROOT + '/coq'
-HARNESS = BUILD + '/cargo-target/release/harness'
+# The implementation under test is /repo. For evaluating seeded changes in scratch worktrees without touching
+# /repo, VERIF_REPO=<dir> points a run at another checkout: it gets its own harness copy, cargo target, work,
+# evidence and replay directories under build/alt-<hash>/ (nothing registered in MANIFEST.json sets it).
+REPO = os.path.realpath(os.environ.get('VERIF_REPO', '/repo'))
+ALT = REPO != '/repo'
+HB = BUILD if not ALT else '%s/alt-%s' % (BUILD, hashlib.sha256(REPO.encode()).hexdigest()[:10])
+OUT = ROOT if not ALT else HB
+HARNESS_SRC = ROOT + '/harness' if not ALT else HB + '/harness'
+HARNESS = HB + '/cargo-target/release/harness'
 MODEL = BUILD + '/model/model_driver'
-WORK = BUILD + '/work'
+WORK = '%s/work/%d' % (HB, os.getpid())      # per process: concurrent checks never share scratch files
 
 ROOT_OPS = {'hash', 'par_hash', 'par_mix'}
 EQ_OPS = {'eq'}
@@ -98,7 +106,7 @@ def log(*a):
 
 def run(cmd, timeout=3600, cwd=None, env=None, capture=True):
     e = dict(os.environ)
-    e.update({'CARGO_NET_OFFLINE': 'true', 'CARGO_TARGET_DIR': BUILD + '/cargo-target'})
+    e.update({'CARGO_NET_OFFLINE': 'true', 'CARGO_TARGET_DIR': HB + '/cargo-target'})
     if env:
         e.update(env)
     return subprocess.run(cmd, cwd=cwd, env=e, timeout=timeout, text=True,
@@ -149,10 +157,27 @@ def build_model():
 
 
 def build_harness():
-    with Lock('harness'):
-        if not os.path.exists(ROOT + '/harness/Cargo.lock'):
-            shutil.copy('/repo/Cargo.lock', ROOT + '/harness/Cargo.lock')
-        r = run(['cargo', 'build', '--release', '--offline'], cwd=ROOT + '/harness', timeout=3000)
+    with Lock('harness' if not ALT else 'harness-' + os.path.basename(HB)):
+        if ALT:
+            os.makedirs(HB, exist_ok=True)
+            if os.path.exists(HARNESS_SRC):
+                shutil.rmtree(HARNESS_SRC)
+            shutil.copytree(ROOT + '/harness', HARNESS_SRC)
+            ct = open(HARNESS_SRC + '/Cargo.toml').read().replace('path = "/repo"', 'path = "%s"' % REPO)
+            open(HARNESS_SRC + '/Cargo.toml', 'w').write(ct)
+            if not os.path.exists(HB + '/cargo-target') and os.path.exists(BUILD + '/cargo-target'):
+                subprocess.run(['cp', '-a', BUILD + '/cargo-target', HB + '/cargo-target'])
+        if not os.path.exists(HARNESS_SRC + '/Cargo.lock'):
+            shutil.copy(REPO + '/Cargo.lock', HARNESS_SRC + '/Cargo.lock')
+        r = run(['cargo', 'build', '--release', '--offline'], cwd=HARNESS_SRC, timeout=3000)
+        if r.returncode != 0 and not re.search(r'^error(\[E\d+\])?: (?!linking|could not compile|aborting due to)', r.stdout, re.M):
+            # no compiler diagnostic: a linker / incremental-cache problem, not a property of /repo.
+            # Throw the incremental state of the two crates away and build again without it.
+            log('harness build failed without a compiler error; retrying without the incremental cache')
+            run(['cargo', 'clean', '--release', '--offline', '-p', 'harness', '-p', 'milhouse'], cwd=HARNESS_SRC, timeout=600)
+            shutil.rmtree(HB + '/cargo-target/release/incremental', ignore_errors=True)
+            r = run(['cargo', 'build', '--release', '--offline'], cwd=HARNESS_SRC, timeout=3000,
+                    env={'CARGO_INCREMENTAL': '0'})
         return r.returncode == 0, r.stdout
 
 
@@ -433,9 +458,9 @@ def make_histories(prop, tier, seed):
 
 
 def write_replay(prop, kind, text, info):
-    os.makedirs(ROOT + '/replays', exist_ok=True)
+    os.makedirs(OUT + '/replays', exist_ok=True)
     h = hashlib.sha256((prop + kind + text + json.dumps(info, sort_keys=True)).encode()).hexdigest()[:12]
-    path = '%s/replays/%s-%s.json' % (ROOT, prop, h)
+    path = '%s/replays/%s-%s.json' % (OUT, prop, h)
     lines = text.strip().split('\n')
     json.dump(dict(property=prop, kind=kind, config=lines[0] if lines else '', history=lines[1:], **info), open(path, 'w'), indent=1)
     return path
@@ -539,7 +564,7 @@ def check(prop, tier, seed):
         if not pr['ok']:
             broken = dict(theorem=pr.get('broken', 'props/%s.v' % prop), detail=pr['detail'][:1500])
         elif not okh:
-            broken = dict(correspondence='the harness no longer builds against /repo', detail=outh[-1500:])
+            broken = dict(correspondence='the harness no longer builds against the repository', detail=outh[-1500:])
         elif not okm:
             broken = dict(correspondence='the model driver does not build', detail=outm[-1500:])
         elif corr:
@@ -624,8 +649,8 @@ def check(prop, tier, seed):
         wall_s=round(time.time() - t0, 1),
         violations=len(violations),
     )
-    os.makedirs(ROOT + '/evidence', exist_ok=True)
-    json.dump(ev, open('%s/evidence/%s.json' % (ROOT, prop), 'w'), indent=1)
+    os.makedirs(OUT + '/evidence', exist_ok=True)
+    json.dump(ev, open('%s/evidence/%s.json' % (OUT, prop), 'w'), indent=1)
     for l in known_lines:
         print(l)
     for path, suffix in violations:
@@ -683,7 +708,10 @@ def main():
     if '--tier' in a:
         tier = a[a.index('--tier') + 1]
     seed = int(os.environ.get('VERIF_SEED', '1'))
-    return check(prop, tier, seed)
+    try:
+        return check(prop, tier, seed)
+    finally:
+        shutil.rmtree(WORK, ignore_errors=True)
 
 
 if __name__ == '__main__':
